@@ -379,17 +379,18 @@ func (s *clientSocket) writeWritablePackets(packets ...*parser.Packet) {
 		// The check, `i < len(packets)`, needs to be made every time.
 		for i, count := 0, 0; i < len(packets); i, count = i+1, count+1 {
 			packet := packets[i]
-			if len(packet.Data) > 0 {
-				// Since we're dealing with the polling transport, supportsBinary argument is false.
-				payloadSize += packet.EncodedLen(false)
-			}
+			// Since we're dealing with the polling transport, supportsBinary argument is false.
+			// A packet without data still occupies one byte (its type).
+			payloadSize += packet.EncodedLen(false)
 			if i > 0 && int64(payloadSize) > s.maxPayload {
 				s.debug.Log("send", count, "out of", total)
 				if len(packets) > 0 {
 					s.transport.Send(packets[:i]...)
 				}
 				packets = packets[i:]
-				i = 0
+				// Restart with the packet that did not fit as the first packet of the next batch.
+				// -1: the loop increment brings it back to 0, so that this packet's size is counted.
+				i = -1
 				payloadSize = 0
 				continue
 			}
